@@ -31,13 +31,13 @@ TEXT = {
     ),
     "C03": (
         "Seeded runs of signers, a relay that duplicates / reorders / corrupts exactly one member, and a batching verifier; aux and batch coefficients come from the RNG seam (uniform and edge). Signatures are compared byte for byte with a BIP340 transcription on secp256k1, verify_ with the reference verdict, batch_verify_ with the conjunction of singles for sizes 1..32 on both sides of the Bos-Coster switch.",
-        "Trusted: btcsim/ref/bip340.py over ref/ec.py. Invalid batches carry one independently wrong member under any coefficient draw, or two members with swapped s values under UNIFORM coefficient draws only (DESIGN 10.7). Other curves: sign-then-verify and verdict laws only.",
+        "Trusted: btcsim/ref/bip340.py over ref/ec.py. Invalid batches carry one independently wrong member under any coefficient draw, or two members with swapped s values under UNIFORM coefficient draws only (DESIGN 10.7). Toy curves (p = 3 mod 4, cofactor 1): the verdict on every wrong member and a quarter of the honest ones is compared with the verification equation over the naive reference group (the challenge is the library's tagged hash), incl. a nonce at x = 0 and its r written as p; catalogued curves other than secp256k1: sign-then-verify and verdict laws only.",
         "deterministic simulation: relay faults (dup, reorder, one corrupted member), RNG-seam edge draws for aux and batch coefficients; reference model = BIP340 transcription",
         "DESIGN.md 3 (W2), 4 (C03)",
     ),
     "C04": (
         "Twin execution of every dual-path API on valid and hostile inputs: arm A then arm B from fresh state, histories with the switch flipped between calls and objects built on one arm used on the other, and a simulated thread flipping the switch at a pre-emption point inside the call. The observable (value, verdict, exact exception class) must be identical.",
-        "Oracle is the other arm; no reference needed. Pre-emption at line boundaries of btclib frames. Known divergences are listed in known_findings.json by (api, input class).",
+        "Oracle is the other arm; no reference needed. Curves: the catalogue, and secp256k1 under another generator (-G, 2G, kG) built by the caller. Pre-emption at line boundaries of btclib frames. Known divergences are listed in known_findings.json by (api, input class).",
         "deterministic simulation: differential twin execution under a moving backend switch, seeded histories and thread interleavings",
         "DESIGN.md 3 (W3), 4 (C04)",
     ),
@@ -55,7 +55,7 @@ TEXT = {
     ),
     "C10": (
         "Discrete-event simulation of build -> update -> sign (k cosigners on their own hosts and disks) -> combine -> finalize -> extract -> engine, under courier drop / duplicate / delay / corruption, cosigner crash and restart, retransmission; then committed-field tampering of the finished transaction against a commitment table; message signatures bound to their address. Closure, liveness within R rounds after faults stop, tamper rejection.",
-        "Oracle is the library's own engine (that is the property) plus the commitment table of DESIGN section 3. <= 4 inputs, <= 5 cosigners, trees <= depth 3, a fixed family of miniscript policies.",
+        "Oracle is the library's own engine (that is the property) plus the commitment table of DESIGN section 3. <= 4 inputs, <= 5 cosigners, trees <= depth 3, a fixed family of miniscript policies with older() / after() on both clocks (heights, and times from 500000000 on; one clock per run).",
         "deterministic simulation: discrete-event courier faults, crash/restart, retransmission; tamper injection against a commitment table",
         "DESIGN.md 3 (W5), 4 (C10)",
     ),
@@ -66,7 +66,7 @@ TEXT = {
         "DESIGN.md 3 (W5), 4 (C11)",
     ),
     "C12": (
-        "Two clauses: (i) every control block the library produces (input_script_sig, Updater, Finalizer) proves its leaf against the output key the wallet handed out -- for the trees wallets use in the ceremony and for drawn trees up to the BIP341 depth limit of 128 (caterpillars, lopsided trees, repeated leaves, other leaf versions), on both backends and across a flip; script-path spends of anyone-can-spend leaves are accepted by the engine; output_prvkey opens the output key; (ii) a single bit flipped in transit in control block, leaf script, leaf version, parity or output key is answered False / refused by check_output_pubkey and refused by the engine inside a spend; (iii) an internal key that is no point is refused by every producer, and a TapTweak digest drawn from [n, 2^256) (the hash as a seam) makes producers and checker refuse.",
+        "Two clauses: (i) every control block the library produces (input_script_sig, Updater, Finalizer) proves its leaf against the output key the wallet handed out -- for the trees wallets use in the ceremony and for drawn trees up to the BIP341 depth limit of 128 (caterpillars, lopsided trees, repeated leaves, other leaf versions, leaves of 252..256 and 525 octets), on both backends and across a flip; script-path spends of anyone-can-spend leaves are accepted by the engine; output_prvkey opens the output key; (ii) a single bit flipped in transit in control block, leaf script, leaf version, parity or output key is answered False / refused by check_output_pubkey and refused by the engine inside a spend; (iii) an internal key that is no point is refused by every producer, and a TapTweak digest drawn from [n, 2^256) (the hash as a seam) makes producers and checker refuse.",
         "That the output key IS BIP341's formula is sampled against a transcription (btcsim/ref/taproot.py), not decided.",
         "deterministic simulation: in-transit bit-flip injection on taproot proofs inside the ceremony and over drawn tree shapes; oracle = the library's verifier and engine",
         "DESIGN.md 3 (W5), 4 (C12), 10",
@@ -79,7 +79,7 @@ TEXT = {
     ),
     "C16": (
         "Discrete-event sessions of MuSig2 (free functions and BIP373 over PSBT), two-party schemes (ECDH, ElligatorSwift, ECIES, DLEQ, Pedersen, Borromean) and BIP352/375 silent payments, with every internal draw behind the RNG seam (edge draws), arrival reordering, duplication, delay, signer crash between rounds, backend flips between parties. Honest runs complete and agree; aggregates verify under ssa.verify_ and a BIP340 transcription; liveness within R retransmission periods after faults stop.",
-        "Trusted: btcsim/ref/bip340.py. Corruption only where the statement speaks of it.",
+        "Trusted: btcsim/ref/bip340.py. Corruption only where the statement speaks of it. Public keys are handed to ECIES and the silent-payment light client in every spelling the API declares.",
         "deterministic simulation: discrete-event courier faults, crash/restart between rounds, RNG-seam edge draws; reference model = BIP340 transcription",
         "DESIGN.md 3 (W6), 4 (C16)",
     ),
@@ -90,7 +90,7 @@ TEXT = {
         "DESIGN.md 3 (W9), 4 (C17)",
     ),
     "C18": (
-        "Accounting identities as invariants along every simulated ceremony: conservation, fee floor on the final vsize, fee == ceil(rate * vsize) on the priced size, dust rule, refusal of insufficient inputs, estimated_weight before signing >= weight after (with grinding and non-grinding signers, multisig up to 15 keys, 251-253 payments), size / weight / vsize identities; and the satoshi/BTC and fee-rate conversions, money-range refusals and ceil fees under a drawn ambient decimal context (precision 1..50, six rounding modes) against exact integer / Fraction arithmetic.",
+        "Accounting identities as invariants along every simulated ceremony: conservation, fee floor on the final vsize, fee == ceil(rate * vsize) on the priced size, dust rule, refusal of insufficient inputs, estimated_weight before signing >= weight after (with grinding and non-grinding signers, multisig up to 15 keys, 251-253 payments), size / weight / vsize identities (also of mined blocks and their tampered copies, a stripped coinbase witness included); and the satoshi/BTC and fee-rate conversions, money-range refusals and ceil fees under a drawn ambient decimal context (precision 1..50, six rounding modes) against exact integer / Fraction arithmetic.",
         "Trusted: btcsim/ref/fees.py, fractions.Fraction. The ambient decimal context is taken to be the only environment the conversions can depend on.",
         "deterministic simulation: invariants over the funded -> signed -> extracted pipeline of a multi-party ceremony under courier faults",
         "DESIGN.md 3 (W5), 4 (C18)",
@@ -102,9 +102,9 @@ TEXT = {
         "DESIGN.md 3 (W4), 4 (C19)",
     ),
     "C20": (
-        "Seeded search over call histories (nonce / signer / wallet objects vs reference state machines, checked after every step), over cache / backend / object-identity perturbation sequences (pure calls vs their quiescent baseline) and over thread interleavings (2-4 real threads under a baton scheduler with PCT / uniform / staggered strategies). Sampling, not enumeration.",
+        "Seeded search over call histories (nonce / signer / wallet objects vs reference state machines, checked after every step), over cache / backend / object-identity perturbation sequences (pure calls vs their quiescent baseline) and over thread interleavings (2-4 real threads under a baton scheduler with PCT / uniform / staggered / rendezvous strategies: the last parks a thread inside a function that touches a hand-rolled memo or a lazily filled attribute until another thread has been through one, DESIGN 10.13). Sampling, not enumeration.",
         "Pre-emption at first-visit line boundaries (thorough: also every line event) of btclib frames; half of the thread budget runs each history in a forked child so that the threads are the first callers a process sees (DESIGN 10.10); C calls atomic as under the GIL. Trusted: the reference models in btcsim (ledger dict, two-state machines), the sequential baseline as oracle for concurrent calls.",
-        "deterministic simulation: seeded histories vs reference state machines; baton-passed threads with PCT scheduling; fault injection on caches, backend switch, object address reuse, wordlist disk read",
+        "deterministic simulation: seeded histories vs reference state machines; baton-passed threads with PCT and rendezvous (race-directed) scheduling; fault injection on caches, backend switch, object address reuse, wordlist disk read",
         "DESIGN.md 3 (W8), 4 (C20), 10",
     ),
 }
